@@ -1417,18 +1417,22 @@ class Controller:
                     sco_link.link_type
                     == hci.HCI_Connection_Complete_Event.LinkType.ESCO
                 ):
-                    self.send_lmp_packet(
-                        sco_link.peer_address,
-                        lmp.LmpRemoveScoLinkReq(
-                            sco_handle=0, error_code=command.reason
-                        ),
+                    self._notify_peer_of_teardown(
+                        lambda: self.send_lmp_packet(
+                            sco_link.peer_address,
+                            lmp.LmpRemoveScoLinkReq(
+                                sco_handle=0, error_code=command.reason
+                            ),
+                        )
                     )
                 else:
-                    self.send_lmp_packet(
-                        sco_link.peer_address,
-                        lmp.LmpRemoveEscoLinkReq(
-                            esco_handle=0, error_code=command.reason
-                        ),
+                    self._notify_peer_of_teardown(
+                        lambda: self.send_lmp_packet(
+                            sco_link.peer_address,
+                            lmp.LmpRemoveEscoLinkReq(
+                                esco_handle=0, error_code=command.reason
+                            ),
+                        )
                     )
                 self.on_classic_sco_disconnected(sco_link.peer_address, command.reason)
             else:
@@ -1438,10 +1442,13 @@ class Controller:
             self.central_cis_links.get(handle) or self.peripheral_cis_links.get(handle)
         ):
             if self.link and cis_link.acl_connection:
-                cis_link.acl_connection.send_ll_control_pdu(
-                    ll.CisTerminateInd(
-                        cis_link.cig_id, cis_link.cis_id, command.reason
-                    ),
+                acl_connection = cis_link.acl_connection
+                self._notify_peer_of_teardown(
+                    lambda: acl_connection.send_ll_control_pdu(
+                        ll.CisTerminateInd(
+                            cis_link.cig_id, cis_link.cis_id, command.reason
+                        ),
+                    )
                 )
                 self.on_le_cis_disconnected(cis_link.cig_id, cis_link.cis_id)
             else:
